@@ -1,27 +1,44 @@
 #!/usr/bin/env python3
+"""Pretty-prints a replay file of any check (wallet session, C04 signing network, C13 send-all call, C16 actors)."""
 import json,sys
 d=json.load(open(sys.argv[1]))
 c=d['case']
 print(d['rule'],d['class']); print(d['detail']); print('size',d['size_before'],'->',d['size_after'],'execs',d['shrink_executions'])
-for i,op in enumerate(c['ops']): print(' op',i,json.dumps(op))
-print(' rng:',c.get('rng')); 
-w=c['world']
-print(' scripts:',json.dumps(w['scripts'])); print(' datums:',json.dumps(w['datums']))
-used=set()
-def walk(x):
-    if isinstance(x,dict):
-        for k,v in x.items():
-            if k in('InUtxo','InLegacy','InDirect','CollUtxo') and isinstance(v,int): used.add(v)
-            if k=='utxo' and isinstance(v,int): used.add(v)
-            if k=='Ref' and isinstance(v,int): used.add(v)
-            if k=='RefIn': used.add(v[0])
-            if k in('Select',): used.update(v[1])
-            if k in('SelectAndChange','SelectChangeCollateral'): used.update(v[1])
-            walk(v)
-    elif isinstance(x,list):
-        for v in x: walk(v)
-walk(c['ops'])
-for i in sorted(used):
-    if i<len(w['utxos']): print('  utxo',i,json.dumps(w['utxos'][i]))
 dk={'fee_a': 44, 'fee_b': 155381, 'cpb': 4310, 'max_value_size': 5000, 'max_tx_size': 16384, 'key_deposit': 2000000, 'pool_deposit': 500000000, 'ex_prices': [577, 10000, 721, 10000000], 'ref_script_price': [15, 1], 'prefer_pure_change': False, 'dedup_ref_inputs': False, 'do_not_burn': False}
-print(' knobs (non-default):',{k:v for k,v in c['knobs'].items() if dk.get(k)!=v}, 'network',w['network'],'magic',w['magic'])
+def knobs(k): return {a:b for a,b in k.items() if dk.get(a)!=b}
+def session(c, indent=''):
+    for i,op in enumerate(c['ops']): print(indent+' op',i,json.dumps(op))
+    print(indent+' rng:',c.get('rng'),' hash_seed:',c.get('hash_seed'),' alt_values:',c.get('alt_values',0))
+    w=c['world']
+    print(indent+' scripts:',json.dumps(w['scripts'])); print(indent+' datums:',json.dumps(w['datums']))
+    used=set()
+    def walk(x):
+        if isinstance(x,dict):
+            for k,v in x.items():
+                if k in('InUtxo','InLegacy','InDirect','CollUtxo') and isinstance(v,int): used.add(v)
+                if k=='utxo' and isinstance(v,int): used.add(v)
+                if k=='Ref' and isinstance(v,int): used.add(v)
+                if k=='RefIn': used.add(v[0])
+                if k in('Select','SelectAndChange','SelectChangeCollateral'): used.update(v[1])
+                walk(v)
+        elif isinstance(x,list):
+            for v in x: walk(v)
+    walk(c['ops'])
+    for i in sorted(used):
+        if i<len(w['utxos']): print(indent+'  utxo',i,json.dumps(w['utxos'][i]))
+    print(indent+' knobs (non-default):',knobs(c['knobs']),'network',w['network'],'magic',w['magic'],'decoded_scripts',w.get('decoded_scripts',False))
+if isinstance(c,dict) and 'ops' in c and 'world' in c:
+    session(c)                                   # wallet session (C05..C10, C18..C20, C08)
+elif 'Session' in c:
+    print('actor: wallet session'); session(c['Session'])     # C03 / C16
+elif 'SendAll' in c or ('offered' in c and 'target' in c):
+    s=c.get('SendAll',c)                          # C13 / C03 send-all
+    print('send-all to',json.dumps(s['target']),'knobs (non-default):',knobs(s['knobs']),'hash_seeds',s.get('hash_seeds'),'decoded',s.get('decoded',0))
+    for i in s['offered']:
+        if i<len(s['world']['utxos']): print('  utxo',i,json.dumps(s['world']['utxos'][i]))
+elif 'session' in c:
+    print('signing network: foreign',c.get('foreign'),'presigned',c.get('presigned'),'legacy_shape',c.get('legacy_shape'),'empty_fields',c.get('empty_fields',0))
+    for i,op in enumerate(c['ops']): print(' step',i,json.dumps(op))
+    print(' originator session:'); session(c['session'],'  ')
+else:
+    print(json.dumps(c,indent=1)[:4000])         # C16 collection / asset actors
